@@ -892,7 +892,11 @@ def _opt_project(v, tname):
         f = Fraction(repr(v))                       # the decimal the float prints as (shortest repr)
         return {"num": f.numerator, "den": f.denominator}
     if tname == "bool":
-        return v if type(v) is bool else {"bad": "type:" + type(v).__name__}
+        # elements of a multiple bool option come back as the ints 0 / 1 (bool is Integral, so they pass through
+        # range()); 1 == True in Python, so they are the denoted values (see notes/text.md)
+        if type(v) is bool or (type(v) is int and v in (0, 1)):
+            return bool(v)
+        return {"bad": "type:" + type(v).__name__}
     if tname == "datetime":
         if type(v) is not _dt.datetime or v.tzinfo is not None or v.microsecond:
             return {"bad": "datetime shape"}
